@@ -54,10 +54,11 @@ def sessions(tier: str, seed: int, kinds=cr.vloop.CLIENTS):
     return recs, meta
 
 
-def judge(chk: Check, wd, recs, meta, tag="c12"):
+def judge(chk: Check, wd, recs, meta, tag="c12", mode="C12"):
     inp, outp = wd / f"{tag}.json", wd / f"{tag}-verdicts.json"
     inp.write_text(json.dumps(recs))
-    _, v = run_trace_tlc("Trace_Framing", "Trace_Framing.cfg", inp, outp, name=f"Trace_Framing-{tag}", heap="2g")
+    _, v = run_trace_tlc("Trace_Framing", "Trace_Framing.cfg", inp, outp, name=f"Trace_Framing-{tag}", heap="3g",
+                         extra_env={"MODE": mode})
     chk.gate(v["n"] == len(recs), "Trace_Framing did not judge every session")
     for b in v["bad"]:
         kind, cb, shape, cuts = meta[b["k"] - 1]
